@@ -69,13 +69,16 @@ void Btdmp::Skip(u64 ticks) {
     if (!transmit_enable || ticks == 0)
         return;
 
+    // A period of 0 transmits on every tick, exactly like a period of 1 (see Tick)
+    const u16 period = transmit_period == 0 ? 1 : transmit_period;
+
     // If the period was lowered below the running timer, Tick transmits on the very next tick
-    if (transmit_timer >= transmit_period)
-        transmit_timer = transmit_period - 1;
+    if (transmit_timer >= period)
+        transmit_timer = period - 1;
 
     u64 future_timer = transmit_timer + ticks;
-    u64 cycles = future_timer / transmit_period;
-    transmit_timer = (u16)(future_timer % transmit_period);
+    u64 cycles = future_timer / period;
+    transmit_timer = (u16)(future_timer % period);
 
     for (u64 c = 0; c < cycles; ++c) {
         std::array<std::int16_t, 2> sample;
